@@ -252,3 +252,217 @@ def tucker(E, name, shape, core_shape):
     core = ttb.tensor(E.reals(f"{name}G", core_shape), copy=False)
     fs = [E.reals(f"{name}U{n}_", (s, c)) for n, (s, c) in enumerate(zip(shape, core_shape))]
     return ttb.ttensor(core, fs, copy=False)
+
+
+# ---------------------------------------------------------------------------------------
+# index-map references (C07)
+
+
+def ref_permute(c, order):
+    """R[j] = X[i] with i[order[k]] = j[k]"""
+    order = [int(o) for o in order]
+    shape = tuple(c.shape[o] for o in order)
+    out = zeros(shape)
+    for j in np.ndindex(*shape):
+        i = [0] * len(order)
+        for k, o in enumerate(order):
+            i[o] = j[k]
+        out[j] = c[tuple(i)]
+    return out
+
+
+def lin_index(idx, shape):
+    r, stride = 0, 1
+    for k, n in enumerate(shape):
+        r += idx[k] * stride
+        stride *= n
+    return r
+
+
+def from_lin(l, shape):
+    idx = []
+    for n in shape:
+        idx.append(l % n)
+        l //= n
+    return tuple(idx)
+
+
+def ref_reshape(c, newshape):
+    """first index fastest: the linear position of every entry is preserved"""
+    out = zeros(newshape)
+    for i in np.ndindex(*c.shape):
+        out[from_lin(lin_index(i, c.shape), newshape)] = c[i]
+    return out
+
+
+def ref_reshape_modes(c, newshape, old_modes):
+    """sptensor.reshape(new, old_modes): reshape the listed modes (in the listed order), kept modes first"""
+    N = c.ndim
+    old_modes = [int(m) for m in old_modes]
+    keep = [m for m in range(N) if m not in old_modes]
+    oshape = [c.shape[m] for m in old_modes]
+    out = zeros([c.shape[m] for m in keep] + list(newshape))
+    for i in np.ndindex(*c.shape):
+        l = lin_index([i[m] for m in old_modes], oshape)
+        out[tuple(i[m] for m in keep) + from_lin(l, newshape)] = c[i]
+    return out
+
+
+def factorizations(n, maxlen):
+    """all ordered factorizations of n into 1..maxlen factors (factors >= 1, at most one run of ones trimmed)"""
+    out = set()
+
+    def rec(rem, acc):
+        if len(acc) == maxlen:
+            if rem == 1:
+                out.add(tuple(acc))
+            return
+        if rem == 1 and acc:
+            out.add(tuple(acc))
+        for f in range(1, rem + 1):
+            if rem % f == 0:
+                rec(rem // f, acc + [f])
+    rec(n, [])
+    return sorted(out)
+
+
+# ---------------------------------------------------------------------------------------
+# multilinear references (C02): the defining sums over indices
+
+
+def ref_ttv(c, vecs):
+    """vecs: {mode: vector}; contract those modes; remaining modes keep their order"""
+    N = c.ndim
+    rem = [m for m in range(N) if m not in vecs]
+    out = zeros([c.shape[m] for m in rem])
+    for i in np.ndindex(*c.shape):
+        t = c[i]
+        for m, v in vecs.items():
+            t = t * v[i[m]]
+        j = tuple(i[m] for m in rem)
+        out[j] = out[j] + t
+    return out if rem else out[()]
+
+
+def ref_ttm(c, mats, transpose=False):
+    """mats: {mode: matrix}; Y[..j..] = sum_i X[..i..] M[j,i]  (transpose: M[i,j])"""
+    cur = c
+    for m, M in mats.items():
+        J = M.shape[1] if transpose else M.shape[0]
+        shape = list(cur.shape)
+        shape[m] = J
+        out = zeros(shape)
+        for i in np.ndindex(*cur.shape):
+            for j in range(J):
+                k = list(i)
+                k[m] = j
+                k = tuple(k)
+                out[k] = out[k] + cur[i] * (M[i[m], j] if transpose else M[j, i[m]])
+        cur = out
+    return cur
+
+
+def ref_mttkrp(c, factors, n, weights=None):
+    """out[i_n, r] = sum_i X[i] * prod_{m != n} U_m[i_m, r]  (* w_r)"""
+    R = factors[0 if n != 0 else 1].shape[1] if len(factors) > 1 else (len(weights) if weights is not None else 1)
+    out = zeros((c.shape[n], R))
+    for i in np.ndindex(*c.shape):
+        for r in range(R):
+            t = c[i]
+            for m in range(c.ndim):
+                if m != n:
+                    t = t * factors[m][i[m], r]
+            if weights is not None:
+                t = t * weights[r]
+            out[i[n], r] = out[i[n], r] + t
+    return out
+
+
+def ref_innerprod(a, b):
+    s = 0.0
+    for i in np.ndindex(*a.shape):
+        s = s + a[i] * b[i]
+    return s
+
+
+def ref_sumsq(a):
+    s = 0.0
+    for v in a.ravel().tolist():
+        s = s + v * v
+    return s
+
+
+def ref_ttt(a, b, adims=(), bdims=()):
+    """contract a's modes adims with b's modes bdims; result modes: remaining a modes then remaining b modes"""
+    adims = [int(x) for x in adims]
+    bdims = [int(x) for x in bdims]
+    ra = [m for m in range(a.ndim) if m not in adims]
+    rb = [m for m in range(b.ndim) if m not in bdims]
+    out = zeros([a.shape[m] for m in ra] + [b.shape[m] for m in rb])
+    for i in np.ndindex(*a.shape):
+        for j in np.ndindex(*b.shape):
+            if all(i[x] == j[y] for x, y in zip(adims, bdims)):
+                k = tuple(i[m] for m in ra) + tuple(j[m] for m in rb)
+                out[k] = out[k] + a[i] * b[j]
+    return out if out.ndim else out[()]
+
+
+def ref_contract(c, i1, i2):
+    rem = [m for m in range(c.ndim) if m not in (i1, i2)]
+    out = zeros([c.shape[m] for m in rem])
+    for i in np.ndindex(*c.shape):
+        if i[i1] == i[i2]:
+            k = tuple(i[m] for m in rem)
+            out[k] = out[k] + c[i]
+    return out if rem else out[()]
+
+
+def ref_collapse(c, dims, red=None):
+    """reduce the modes in dims with `red` (list -> value; default sum)"""
+    dims = [int(d) for d in dims]
+    rem = [m for m in range(c.ndim) if m not in dims]
+    groups = {}
+    for i in np.ndindex(*c.shape):
+        groups.setdefault(tuple(i[m] for m in rem), []).append(c[i])
+    if red is None:
+        def red(vs):
+            s = 0.0
+            for v in vs:
+                s = s + v
+            return s
+    out = zeros([c.shape[m] for m in rem])
+    for k, vs in groups.items():
+        out[k] = red(vs)
+    return out if rem else out[()]
+
+
+def ref_scale(c, factor_cells, dims):
+    dims = [int(d) for d in dims]
+    out = zeros(c.shape)
+    for i in np.ndindex(*c.shape):
+        out[i] = c[i] * factor_cells[tuple(i[m] for m in dims)]
+    return out
+
+
+def ref_khatrirao(mats):
+    """column-wise Kronecker product; the FIRST matrix's row index varies slowest"""
+    R = mats[0].shape[1]
+    rows = [M.shape[0] for M in mats]
+    out = zeros((int(np.prod(rows)), R))
+    for idx in np.ndindex(*rows):
+        lin = 0
+        for k, i in enumerate(idx):
+            lin = lin * rows[k] + i
+        for r in range(R):
+            t = 1.0
+            for k, i in enumerate(idx):
+                t = t * mats[k][i, r]
+            out[lin, r] = t
+    return out
+
+
+def smax(vs):
+    m = vs[0]
+    for v in vs[1:]:
+        m = v if (v > m) else m
+    return m
